@@ -1732,6 +1732,12 @@ func runC18AllRoots(c *Ctx) {
 	default:
 		c.bad(construct, fn.Pos(), "nil is returned at "+bad+" under a condition other than the end of the loop over the jobs: some graphs with a cycle (a single self-dependent job, for instance) get no diagnostic")
 	}
+	// the loop over the jobs is left before its end only with a cycle
+	if leaks := searchLoopLeaks(p, fn); len(leaks) == 0 {
+		c.ok("detectFirstCycle|every job tried as a root", fn.Pos(), "the loops are left before their end only by returning a cycle")
+	} else {
+		c.bad("detectFirstCycle|every job tried as a root", fn.Pos(), strings.Join(leaks, "; ")+": the jobs behind it are never searched, a cycle among them is missed")
+	}
 }
 
 func runC19DupAlways(c *Ctx) {
@@ -1790,6 +1796,15 @@ func runC19DupAlways(c *Ctx) {
 		c.ok(construct, calls[0].Pos(), "reached whenever the matrix itself is not an expression")
 	} else {
 		c.bad(construct, calls[0].Pos(), "the duplicate check is conditional on "+bad+": duplicates in literal rows go unreported when include is dynamic")
+	}
+	// every value of a row is compared with the earlier ones: the loop over the values is not left before its end
+	if dup := staticCallee(calls[0].Common()); dup != nil && len(dup.Blocks) > 0 {
+		if exits := outermostLoopExits(p, dup); len(exits) == 0 {
+			c.ok(FuncName(dup)+"|every value of the row examined", dup.Pos(), "the loop over the values of the row runs to its end")
+		} else {
+			c.bad(FuncName(dup)+"|every value of the row examined", dup.Pos(), strings.Join(exits, "; ")+": the values behind it are never compared, a second duplicate in the same row goes unreported")
+		}
+		c19DuplicateVerdict(c, dup)
 	}
 }
 
@@ -3130,6 +3145,18 @@ func runC20JSONWhole(c *Ctx) {
 			continue
 		}
 		n++
+		// output that cannot be decoded is a fatal error: the error of every decoding call, when not nil, is returned
+		for _, d := range append(append([]ssa.CallInstruction{}, unm...), dec...) {
+			dv, _ := d.(*ssa.Call)
+			if dv == nil {
+				continue
+			}
+			if why := failureNotReturned(p, fn, dv); why == "" {
+				c.ok(FuncName(fn)+"|undecodable output is an error", d.Pos(), "a decoding error is returned as an error")
+			} else {
+				c.bad(FuncName(fn)+"|undecodable output is an error", d.Pos(), why+": output of shellcheck that is not JSON silently yields no diagnostics")
+			}
+		}
 		construct := FuncName(fn) + "|decoding of the tool output"
 		if len(dec) == 0 {
 			c.ok(construct, unm[0].Pos(), "json.Unmarshal: anything after the first value is a syntax error")
